@@ -24,7 +24,8 @@ RULE = (
     "defaults, custom keys - with scalar, list and nested-map values, including values that change the type of an existing "
     "key), config.update with dict documents, set_target_language_configuration_override with explicit and DefaultValue-"
     "marked values, create, and whole-CLI steps (--list-configuration, probe template printing options) with --configuration "
-    "files and option flags; API call order between files and overrides is permuted; faults are unreadable or broken YAML in "
+    "files and option flags; documents may share one sub-object between two keys (YAML anchors), file lists may name one file "
+    "twice; API call order between files and overrides is permuted; faults are unreadable or broken YAML in "
     "the middle of a file list. Distinct = digest of the op-kind/key/shape sequence; non-trivial = at least two sources "
     "touched one key, or a context was re-inspected after a later operation on another builder."
 )
